@@ -213,10 +213,25 @@ pub enum Step {
     },
     /// serde representation check
     Serde { text: TextRef, reader: Bk, artifact: Artifact },
+    /// evaluate a validator expression directly on claims (optionally through `map`) at a node clock
+    Validate { validator: VSpec, claims: RegSpec, now_ns: Ns, mapped: bool },
+    /// payload codec checks (C14)
+    Codec { case: CodecCase },
     /// a scripted multi-thread episode (C17)
     Threads { spec: crate::sched::ThreadSpec },
     /// a repeated-operation history (C16a)
     History { node: usize, op: HistOp, count: u32, tag: u64 },
+}
+
+#[derive(Clone, Debug, PartialEq, Serialize, Deserialize)]
+#[serde(tag = "k")]
+pub enum CodecCase {
+    /// encode RegisteredClaims, inspect the wire form with a generic JSON parser, decode back
+    RegRoundtrip { claims: RegSpec },
+    /// a foreign issuer's JSON text decoded as RegisteredClaims
+    RegForeign { json: String },
+    /// Json<Value> as payload and footer is transparent over serde_json
+    JsonTransparent { value: serde_json::Value },
 }
 
 #[derive(Clone, Copy, Debug, PartialEq, Eq, PartialOrd, Ord, Serialize, Deserialize)]
@@ -272,6 +287,8 @@ impl Step {
             Step::BlobInject { .. } => "BlobInject",
             Step::Offer { .. } => "Offer",
             Step::Serde { .. } => "Serde",
+            Step::Validate { .. } => "Validate",
+            Step::Codec { .. } => "Codec",
             Step::Threads { .. } => "Threads",
             Step::History { .. } => "History",
         }
